@@ -28,7 +28,7 @@ def install(I):
     F['loopvar'] = Builtin('spec.loopvar', lambda I_, a, k: lv(I_, a[0], a[1]))
     F['var'] = Builtin('spec.var', lambda I_, a, k: I_.call(I_.getattr_(a[0].attrs['_call_stack'], 'get_variable'), [a[1]], {}))
     F['in_loop_frame'] = Builtin('spec.in_loop_frame', lambda I_, a, k: a[0].attrs['_call_stack'].attrs['_top'].cls.name == 'LoopFrame')
-    F['stack_depth'] = Builtin('spec.stack_depth', lambda I_, a, k: len(a[0].attrs['_vm_math'].attrs['_eval_stack'].attrs['_stack'].items))
+    F['stack_depth'] = Builtin('spec.stack_depth', lambda I_, a, k: len(I_.getattr_(a[0].attrs['_vm_math'].attrs['_eval_stack'], '_stack').items))
     F['waits'] = Builtin('spec.waits', lambda I_, a, k: sum(1 for x in I_.ghost['Clk'].items if x[0] == 'pause_for'))
 
 
